@@ -661,9 +661,11 @@ class Interp:
         if isinstance(st, ast.Try):
             try:
                 self.exec_block(st.body, env, module)
-            except Raised:
+            except Raised as exc:
                 if not st.handlers:
                     raise
+                if st.handlers[0].name:
+                    env[st.handlers[0].name] = ("exception", exc.what)
                 self.exec_block(st.handlers[0].body, env, module)
             else:
                 self.exec_block(st.orelse, env, module)
